@@ -10,7 +10,9 @@ def _layouts(ctx):
     """all (object index, parameter index) layouts: 1-2 levels each with names from {a, b, None}, level order, key sets over small alphabets"""
     import itertools
     import pandas as pd
-    names_pool = [('a',), ('b',), (None,), ('a', 'b'), ('b', 'a'), ('a', None), ('a', 'c')]
+    # ('' is a legitimate level name that is falsy: added after seed C13-b replaced `name if name is not None else ...` by `name or ...`.  Integer level names
+    # are not part of the domain: pandas itself reads an integer handed to Index.get_level_values as a level position, e.g. a level named 5 raises IndexError)
+    names_pool = [('a',), ('b',), (None,), ('a', 'b'), ('b', 'a'), ('a', None), ('a', 'c'), ('',), ('a', '')]
     keysets = {
         1: [[(0,), (1,)], [(1,), (0,), (2,)], [(2,)], [(0,), (2,), (1,)]],
         2: [[(0, 'x'), (0, 'y'), (1, 'x')], [(1, 'y'), (0, 'x')], [(0, 'x'), (1, 'y'), (2, 'x'), (2, 'y')], [(2, 'y'), (1, 'x'), (0, 'x')]],
@@ -60,7 +62,7 @@ def b_align(ctx):
     import pandas as pd
     from pylife.core.broadcaster import Broadcaster
     warnings.simplefilter('ignore')
-    ctx.bound = "object/parameter index names from {(a),(b),(None),(a,b),(b,a),(a,None),(a,c)}^2, 4 key sets per arity over {0,1,2} x {x,y} (sizes 1-4, shuffled), object in {Series, DataFrame(2 cols)}, parameter in {Series, DataFrame}; chained layouts (a,b) x (b,c) pairing 1:1 in the same / another order or multiplying rows; plus scalar and array parameters"
+    ctx.bound = "object/parameter index names from {(a),(b),(None),(a,b),(b,a),(a,None),(a,c),(''),(a,'')}^2 (integer level names excluded: pandas reads them as level positions), 4 key sets per arity over {0,1,2} x {x,y} (sizes 1-4, shuffled), object in {Series, DataFrame(2 cols)}, parameter in {Series, DataFrame}; chained layouts (a,b) x (b,c) pairing 1:1 in the same / another order or multiplying rows; plus scalar and array parameters"
     ctx.rule = "non-trivial: the two operands do not have the same index; distinct by (object kind, parameter kind, layout)"
     ctx.exhaustive = True
 
@@ -247,7 +249,7 @@ class GIndex:
             raise Unsupported(f'assignment to index.{attr}')
         self.world.may_fail(f'{self.tag}.names = ...')
         items = value.items if isinstance(value, PList) else list(value)
-        if not all(isinstance(x, str) or x is None for x in items):
+        if not all(isinstance(x, (str, int)) or x is None for x in items):
             raise Unsupported('index names are not concrete')
         self.names = list(items)
         self.writes += 1
@@ -322,7 +324,7 @@ def broadcast_frame(o):
     from pv.ghost import World, HavocNS, Havoc
     from pv.interp import PyRaise, Obj, PList
     layouts = [(('a',), ('a',)), (('a',), ('b',)), ((None,), ('a',)), (('a', 'b'), ('a',)), (('a', 'b'), ('b', 'c')), (('a', None), ('a', 'c')), (('a', 'b'), ('c', None)),
-               (('a', 'b', 'c'), ('b', 'd'))]
+               (('a', 'b', 'c'), ('b', 'd')), (('',), ('',)), (('',), ('scenario',)), (('a', ''), ('a', 'c'))]      # the last three: the falsy level name '' (seed C13-b)
     rows = []
     for on, pn in layouts:
         for okind, pkind in (('series', 'series'), ('frame', 'series'), ('frame', 'frame')):
